@@ -8,7 +8,7 @@ from ..astutil import decorators, dotted, is_const, is_none, kw, norm, strip_doc
 from ..dcmodel import all_fields, caching_new
 from ..dtree import decision_tree
 from ..effects import scan_writes
-from ..finite import k_eq, k_is, k_none
+from ..finite import Evaluator, NeedAtom, k_eq, k_is, k_none
 from ..report import Checker
 from ..srcmodel import Cls, Func, Unsupported
 
@@ -169,13 +169,20 @@ def r_types_all(ck: Checker) -> None:
     loops = [st for st in body if isinstance(st, ast.For) and norm(st.iter) == "self.content"]
     what = "every listed field must exist and satisfy its spec; captures accumulate"
     ok = False
+    if len(loops) != 1:
+        raise Unsupported("NodeMatcher._match: no single loop over self.content", f.node)
     if len(loops) == 1:
         inner = decision_tree(loops[0].body)
-        has_attr = [lf for lf in inner if any(k.startswith("hasattr(value,") for k in lf.assign)]
+        unp = [st for st in walk_body(loops[0].body) if isinstance(st, ast.Assign) and isinstance(st.targets[0], ast.Tuple) and len(st.targets[0].elts) == 2
+               and isinstance(st.value, ast.Call) and isinstance(st.value.func, ast.Attribute) and st.value.func.attr == "match"]
+        if len(unp) != 1:
+            raise Unsupported("NodeMatcher._match: the field loop does not unpack one <sub-matcher>.match(...) result", loops[0])
+        okv = norm(unp[0].targets[0].elts[0])
         ok = any(lf.outcome == "return" and _tuple_ret(lf.value) == ("False", "{}") and any(k.startswith("hasattr(") and not v for k, v in lf.assign.items()) for lf in inner) \
-            and any(lf.outcome == "return" and _tuple_ret(lf.value) == ("False", "{}") and lf.assign.get("ok") is False for lf in inner) \
-            and any(lf.outcome == "fall" and lf.assign.get("ok") is True for lf in inner)
-    (ck.holds if ok else ck.violation)("R-TYPES-ALL", f, f.node, what, **({} if ok else {"construct": "NodeMatcher._match: field loop not recognised"}))
+            and any(lf.outcome == "return" and _tuple_ret(lf.value) == ("False", "{}") and lf.assign.get(okv) is False for lf in inner) \
+            and any(lf.outcome in ("fall", "continue") and lf.assign.get(okv) is True for lf in inner) \
+            and not any(lf.outcome in ("fall", "continue") and (lf.assign.get(okv) is False or any(k.startswith("hasattr(") and not v for k, v in lf.assign.items())) for lf in inner)
+    (ck.holds if ok else ck.violation)("R-TYPES-ALL", f, f.node, what, **({} if ok else {"construct": "NodeMatcher._match: a missing field or a failing field spec does not fail the match"}))
     pi = ck.repo.func(PAT, "NodeMatcher.__post_init__")
     sets = [c for c in walk_body(pi.node.body) if isinstance(c, ast.Call) and dotted(c.func) == "object.__setattr__" and is_const(c.args[1], "types")]
     what = "NodeMatcher keeps all class alternatives (duplicates removed only)"
@@ -186,14 +193,28 @@ def r_types_all(ck: Checker) -> None:
 def r_capture(ck: Checker) -> None:
     f = ck.repo.func(PAT, "BaseMatcher.match")
     body = strip_docstring(f.node.body)
-    leaves = decision_tree(body)
-    call = [st for st in body if isinstance(st, ast.Assign) and norm(st.value) == "self._match(value, ctx)"]
-    if len(call) != 1 or not isinstance(call[0].targets[0], ast.Tuple):
-        raise Unsupported("BaseMatcher.match does not unpack self._match(value, ctx)", f.node)
+    leaves = decision_tree(body, resolve=True)
+    vp, cp = f.node.args.args[1].arg, f.node.args.args[2].arg
+    call = [st for st in walk_body(body) if isinstance(st, ast.Assign) and isinstance(st.value, ast.Call) and norm(st.value.func) == "self._match"
+            and len(st.value.args) == 2 and norm(st.value.args[0]) == vp]
+    if not call or not all(isinstance(c.targets[0], ast.Tuple) and norm(c.targets[0]) == norm(call[0].targets[0]) for c in call):
+        raise Unsupported("BaseMatcher.match does not unpack self._match(value, <context>) into one pair of locals", f.node)
     okv, nv = (norm(x) for x in call[0].targets[0].elts)
     bad = []
     for lf in leaves:
-        a = {k: v for k, v in lf.assign.items() if k != k_none("ctx")}
+        # the context handed down: the caller's, or an empty one when none was given
+        passed = [st for st in lf.stmts if isinstance(st, ast.Assign) and isinstance(st.value, ast.Call) and norm(st.value.func) == "self._match"]
+        if len(passed) == 1:
+            ctxarg = norm(passed[0].value.args[1])
+            none_ctx = lf.assign.get(k_none(cp))
+            fresh = any(isinstance(st, ast.Assign) and norm(st.targets[0]) == cp and norm(st.value) in ("{}", "dict()") for st in lf.stmts)
+            if none_ctx is True and not (ctxarg in ("{}", "dict()") or (ctxarg == cp and fresh)):
+                bad.append(f"no context given: _match receives {ctxarg}")
+            elif none_ctx is False and ctxarg != cp:
+                bad.append(f"context given: _match receives {ctxarg}")
+            elif none_ctx is None and ctxarg != cp:
+                raise Unsupported(f"BaseMatcher.match passes {ctxarg} as context", f.node)
+        a = {k: v for k, v in lf.assign.items() if k != k_none(cp)}
         t = _tuple_ret(lf.value)
         if t is None:
             bad.append(f"returns {lf.val()}")
@@ -204,7 +225,7 @@ def r_capture(ck: Checker) -> None:
             if t != ("True", nv):
                 bad.append(f"no capture name: returns {lf.val()}")
         elif a.get(okv) is True and a.get(k_none("self.name")) is False:
-            if t[0] != "True" or t[1] not in (f"{{self.name: value, **{nv}}}", f"{{**{nv}, self.name: value}}"):
+            if t[0] != "True" or t[1] not in (f"{{self.name: {vp}, **{nv}}}", f"{{**{nv}, self.name: {vp}}}"):
                 bad.append(f"named capture returns {lf.val()} (the matched object itself must be captured)")
         else:
             bad.append(f"undecided path {lf.assign}")
@@ -362,22 +383,58 @@ def r_pure_match(ck: Checker) -> None:
 def r_multi_order(ck: Checker) -> None:
     f = ck.repo.func(PAT, "MultiPatternMatcher.match")
     body = strip_docstring(f.node.body)
-    loops = [st for st in body if isinstance(st, ast.For)]
     what = "MultiPatternMatcher.match tries the rules in the given order and returns the first success"
-    ok = False
-    if len(loops) == 1 and norm(loops[0].iter) == "rules" and not loops[0].orelse:
-        r = norm(loops[0].target)
-        inner = decision_tree(loops[0].body)
-        call = [st for st in loops[0].body if isinstance(st, ast.Assign) and norm(st.value) == f"self._name_to_matcher[{r}].match(node)"]
-        if len(call) == 1 and isinstance(call[0].targets[0], ast.Tuple):
-            okv, cap = (norm(x) for x in call[0].targets[0].elts)
-            ok = all((lf.assign.get(okv) is True and lf.outcome == "return" and _tuple_ret(lf.value) == (r, cap)) or
-                     (lf.assign.get(okv) is False and lf.outcome in ("fall", "continue")) for lf in inner) and len(inner) == 2
-        last = body[-1]
-        ok = ok and isinstance(last, ast.Return) and (last.value is None or is_none(last.value))
-        dflt = [st for st in body if isinstance(st, ast.If) and norm(st.test) == "rules is None"]
-        ok = ok and len(dflt) == 1 and norm(dflt[0].body[0]) == "rules = self._name_to_matcher.keys()"
-    (ck.holds if ok else ck.violation)("R-MULTI-ORDER", f, f.node, what, **({} if ok else {"construct": "MultiPatternMatcher.match: first-success loop in rule order not recognised"}))
+    np_, rp = f.node.args.args[1].arg, (f.node.args.args[2].arg if len(f.node.args.args) > 2 else f.node.args.kwonlyargs[0].arg)
+    table = "self._name_to_matcher"
+    leaves = decision_tree(body, resolve=True)
+    bad = None
+    n = 0
+    for lf in leaves:
+        loops = [st for st in lf.stmts if isinstance(st, ast.For)]
+        if len(loops) != 1 or loops[0].orelse or not isinstance(loops[0].target, ast.Name):
+            raise Unsupported("MultiPatternMatcher.match: not a single loop over the rule names", f.node)
+        lp = loops[0]
+        for rules_none in (True, False):
+            if lf.assign.get(k_none(rp), rules_none) != rules_none:
+                continue
+            it = lp.iter
+            while isinstance(it, ast.IfExp):
+                try:
+                    it = it.body if Evaluator({k_none(rp): rules_none}).ev(it.test) else it.orelse
+                except NeedAtom:
+                    raise Unsupported(f"MultiPatternMatcher.match iterates {norm(lp.iter)[:60]}", lp)
+            if k_none(rp) not in lf.assign and not isinstance(lp.iter, ast.IfExp):
+                if norm(it) == rp:
+                    bad = bad or "rules=None is not replaced by the registered rule names"
+                continue
+            n += 1
+            want = (f"{table}.keys()", table, f"list({table})", f"list({table}.keys())", f"tuple({table})") if rules_none else (rp,)
+            if norm(it) not in want:
+                bad = bad or f"rules {'not ' if rules_none else ''}given: iterates {norm(it)[:50]}"
+        r = lp.target.id
+        inner = decision_tree(lp.body, resolve="calls")
+        calls = [st for st in walk_body(lp.body) if isinstance(st, ast.Assign) and isinstance(st.targets[0], ast.Tuple) and len(st.targets[0].elts) == 2
+                 and isinstance(st.value, ast.Call) and isinstance(st.value.func, ast.Attribute) and st.value.func.attr == "match"]
+        if len(calls) != 1:
+            raise Unsupported("MultiPatternMatcher.match: the loop does not unpack one <matcher>.match(node) result", lp)
+        okv, cap = (norm(x) for x in calls[0].targets[0].elts)
+        for il in inner:
+            done = [st for st in il.stmts if isinstance(st, ast.Assign) and isinstance(st.value, ast.Call) and isinstance(st.value.func, ast.Attribute) and st.value.func.attr == "match"]
+            if not done or norm(done[0].value) != f"{table}[{r}].match({np_})":
+                bad = bad or f"rule {r} is matched with {[norm(d.value)[:50] for d in done]}"
+            if set(il.assign) - {okv}:
+                raise Unsupported(f"MultiPatternMatcher.match: loop decides on {sorted(il.assign)}", lp)
+            if il.assign.get(okv) is True and not (il.outcome == "return" and _tuple_ret(il.value) == (r, cap)):
+                bad = bad or f"a matching rule does not return (name, captures): {il.outcome} {il.val()}"
+            if il.assign.get(okv) is False and il.outcome not in ("fall", "continue"):
+                bad = bad or f"a failing rule ends the search: {il.outcome} {il.val()}"
+            if okv not in il.assign:
+                bad = bad or "the match result is not consulted"
+        if lf.outcome not in ("fall", "return") or (lf.outcome == "return" and not (lf.value is None or is_none(lf.value))):
+            bad = bad or f"no rule matches: {lf.outcome} {lf.val()}"
+    if n < 2 and not bad:
+        raise Unsupported("MultiPatternMatcher.match: the rule order source was not decided for both cases", f.node)
+    (ck.holds if not bad else ck.violation)("R-MULTI-ORDER", f, f.node, what, **({"evaluations": len(leaves)} if not bad else {"construct": f"MultiPatternMatcher.match: {bad}"}))
     g = ck.repo.func(PAT, "MultiPatternMatcher.__init__")
     loops = [st for st in g.node.body if isinstance(st, ast.For)]
     what = "rules are registered in the order given (dict insertion order = definition order)"
